@@ -57,12 +57,30 @@ def logical_probs(circ, in_state):
     return {s: p / tot for s, p in res.items()} if tot > 0 else res
 
 
+def analyzer_probs(circ, in_state):
+    """the same frequencies obtained the way the library's documentation does it: Analyzer + one photon per qubit"""
+    import lightworks as lw
+    from lightworks import emulator as emu
+    nq = circ.input_modes // 2
+    an = emu.Analyzer(circ)
+    ps = lw.PostSelection()
+    for i in range(nq):
+        ps.add((2 * i, 2 * i + 1), 1)
+    an.post_selection = ps
+    st = lw.State(list(in_state))
+    r = an.analyze(st)
+    probs = {o: float(r[st, o]) for o in r.outputs}
+    tot = sum(probs.values())
+    return {s_: p / tot for s_, p in probs.items() if p > 0}
+
+
 class Experiment:
     """records what the tomography asks for and answers with exact frequencies, in a shuffled dictionary order"""
 
-    def __init__(self, seed):
+    def __init__(self, seed, source="permanent"):
         self.rng = random.Random(seed)
         self.calls = []
+        self.source = source        # "permanent": the harness's own permanent; "analyzer": the library's Analyzer (the documented way to get exact frequencies)
 
     def state(self, circuits):
         self.calls.append(("state", list(circuits), None))
@@ -73,7 +91,7 @@ class Experiment:
         return [self._answer(c, list(s)) for c, s in zip(circuits, inputs)]
 
     def _answer(self, c, ins):
-        d = logical_probs(c, ins)
+        d = analyzer_probs(c, ins) if self.source == "analyzer" else logical_probs(c, ins)
         items = list(d.items())
         self.rng.shuffle(items)
         return dict(items)
@@ -117,6 +135,61 @@ def ptrace_out(J, d):
     """partial trace over the OUTPUT factor of a Choi matrix on in (x) out"""
     J4 = J.reshape(d, d, d, d)
     return np.einsum("ikjk->ij", J4)
+
+
+def fidelity_probe(fn, exact, seed, K=40):
+    """fidelity of the exact (rank deficient) matrix against itself under K Hermitian perturbations of a few units in the last
+    place that keep exact zeros on the diagonal - what noiseless frequencies look like after floating-point arithmetic.
+    Returns None or a description of the first failure (exception from the library, non-finite value, value != 1)."""
+    from ..common import library_raised
+    rng = np.random.default_rng(seed)
+    d = exact.shape[0]
+    u = 1.3877787807814457e-17
+    for k in range(K):
+        N = (rng.integers(-5, 6, size=(d, d)) + 1j * rng.integers(-5, 6, size=(d, d))) * u
+        N = N + N.conj().T
+        mask = rng.random((d, d)) < 0.3
+        N = N * (mask | mask.T)
+        np.fill_diagonal(N, 0)
+        try:
+            v = fn(exact + N, exact)
+        except Exception as e:  # noqa: BLE001
+            if not library_raised(e):
+                raise
+            return "raised %s: %s (perturbation %d, size %.1e)" % (type(e).__name__, e, k, np.abs(N).max())
+        if not np.isfinite(v) or abs(v - 1) > 1e-6:
+            return "returned %r (perturbation %d, size %.1e)" % (v, k, np.abs(N).max())
+    return None
+
+
+def bell_regression():
+    """F24: the history that exposed it - |01>+|10> prepared with H, X, CNOT; frequencies from the Analyzer in its own order"""
+    import lightworks as lw
+    from lightworks import qubit, tomography as tm
+    from ..common import library_raised
+    out = []
+    for sign in (1, -1):
+        c = lw.Circuit(4)
+        if sign < 0:
+            c.add(qubit.X(), 0)
+        c.add(qubit.H(), 0)
+        c.add(qubit.X(), 2)
+        c.add(qubit.CNOT(), 0)
+        t = tm.StateTomography(2, c, lambda circuits: [analyzer_probs(x, [1, 0, 1, 0]) for x in circuits])
+        rho = t.process()
+        psi = np.array([0, 1, sign, 0], dtype=complex) / math.sqrt(2)
+        rx = np.outer(psi, psi.conj())
+        if np.abs(rho - rx).max() > 1e-8:
+            out.append(("rho", "(|01> %s |10>)/sqrt2: reconstructed density matrix off by %.3g" % ("+" if sign > 0 else "-", np.abs(rho - rx).max())))
+        try:
+            fid = t.fidelity(rx)
+            if not np.isfinite(fid) or abs(fid - 1) > 1e-6:
+                out.append(("fidelity", "(|01> %s |10>)/sqrt2 with Analyzer frequencies: fidelity %r" % ("+" if sign > 0 else "-", fid)))
+        except Exception as e:  # noqa: BLE001
+            if not library_raised(e):
+                raise
+            out.append(("fidelity", "(|01> %s |10>)/sqrt2 with Analyzer frequencies: StateTomography.fidelity raised %s: %s" % ("+" if sign > 0 else "-", type(e).__name__, e)))
+    return out
 
 
 def worker(st, ctx):
@@ -163,6 +236,23 @@ def _worker(st, ctx):
             f.append(("fidelity", "state fidelity against the prepared state is %.8f" % fid))
         if snap(base) != s0:
             f.append(("base_changed", "state tomography changed the base circuit"))
+        # the same protocol with frequencies from the library's own Analyzer (equal to the above up to rounding in the last digit)
+        t2 = tm.StateTomography(nq, base, Experiment(seed, "analyzer").state)
+        rho2 = t2.process()
+        if np.abs(rho2 - rx).max() > 1e-8:
+            f.append(("rho", "with Analyzer frequencies: reconstructed density matrix differs from |psi><psi| by %.3g for program %s" % (np.abs(rho2 - rx).max(), gs)))
+        try:
+            fid2 = t2.fidelity(rx)
+            if abs(fid2 - 1) > 1e-6:
+                f.append(("fidelity", "with Analyzer frequencies: state fidelity against the prepared state is %.8f" % fid2))
+        except Exception as e:  # noqa: BLE001
+            from ..common import library_raised
+            if not library_raised(e):
+                raise
+            f.append(("fidelity", "with Analyzer frequencies: StateTomography.fidelity raised %s: %s (program %s)" % (type(e).__name__, e, gs)))
+        msg = fidelity_probe(tm.state_fidelity, rx, seed)
+        if msg:
+            f.append(("fidelity", "state_fidelity of the prepared state (program %s) against itself, rounded in the last place: %s" % (gs, msg)))
     if "li" in ctx["what"]:
         ex = Experiment(seed)
         t = tm.LIProcessTomography(nq, base, ex.process)
@@ -178,6 +268,22 @@ def _worker(st, ctx):
             f.append(("li_fidelity", "LI process fidelity against choi_from_unitary(V) is %.6f (program %s)" % (fid, gs)))
         if snap(base) != s0:
             f.append(("base_changed", "process tomography changed the base circuit"))
+        t2 = tm.LIProcessTomography(nq, base, Experiment(seed, "analyzer").process)
+        J2 = t2.process()
+        if np.abs(J2 - Jx).max() > 1e-7:
+            f.append(("li_choi", "with Analyzer frequencies: linear-inversion Choi matrix differs by %.3g (program %s)" % (np.abs(J2 - Jx).max(), gs)))
+        try:
+            fid2 = t2.fidelity(Jref)
+            if abs(fid2 - 1) > 1e-5:
+                f.append(("li_fidelity", "with Analyzer frequencies: LI process fidelity is %.6f (program %s)" % (fid2, gs)))
+        except Exception as e:  # noqa: BLE001
+            from ..common import library_raised
+            if not library_raised(e):
+                raise
+            f.append(("li_fidelity", "with Analyzer frequencies: LIProcessTomography.fidelity raised %s: %s (program %s)" % (type(e).__name__, e, gs)))
+        msg = fidelity_probe(tm.process_fidelity, Jref, seed, K=20)
+        if msg:
+            f.append(("li_fidelity", "process_fidelity of choi_from_unitary(V) (program %s) against itself, rounded in the last place: %s" % (gs, msg)))
     if "gf" in ctx["what"]:
         ex = Experiment(seed)
         g = tm.GateFidelity(nq, base, ex.process)
